@@ -279,6 +279,8 @@ def _heads_on(desc, feats, vals, ref):
             L = (x * p["t"]).sum() + (vals[ref.around_leaf].detach() * 3.0).sum()
         elif tpl == "H8":
             L = x.sum() * p["t0"] * p["t0"]
+        elif tpl == "H9":
+            L = (p["t"] * p["t"]).sum()
         losses.append(L)
         tparams.append([p[n] for n, _ in M.PARAMS[tpl]])
     return losses, tparams
